@@ -4,6 +4,7 @@
  "props": ["C08", "C20"],
  "level": "U/iter",
  "tier": "quick",
+ "tier_after_hooks": "quick",
  "harness": "h_mark_fs_metablock",
  "includes": ["resize"],
  "loop_contracts": true,
